@@ -236,8 +236,8 @@ func (s *seqCounters) add(seqNr uint32) {
 				nrToDrop++
 			}
 		}
-		if s._nrCounters == s.windowSize {
-			nrToDrop++
+		if nrToDrop == 0 && s._nrCounters == s.windowSize {
+			nrToDrop = 1 // Full, make room for the new counter
 		}
 		if nrToDrop > 0 {
 			copy(s.counters, s.counters[nrToDrop:])
